@@ -564,12 +564,8 @@ func syncBody(sc syncScenario) func() interface{} {
 			// single caller: whatever follows the refusal must be the start of a NEW command
 			rest := string(stream[refusedAt:])
 			ok := rest == ""
-			if len(rest) > 2 && rest[0] == 'T' {
-				j := 1
-				for j < len(rest) && rest[j] >= '0' && rest[j] <= '9' {
-					j++
-				}
-				ok = j > 1 && j < len(rest) && rest[j] == ' '
+			if sp := strings.IndexByte(rest, ' '); sp > 0 {
+				ok = vimap.Index(rest[:sp]) > 0 // one of the client's own tags (whatever their syntax)
 			}
 			if !ok {
 				if len(rest) > 80 {
@@ -614,6 +610,7 @@ func syncBody(sc syncScenario) func() interface{} {
 
 func main() {
 	run := vk.Start("C18", "model_checking")
+	vimap.Tag(1) // learn the client's tag syntax before any controlled execution
 	defs := cmdDefs()
 	lcs := legalCases(defs, run.Thorough())
 	scs := syncScenarios()
